@@ -42,7 +42,7 @@ def run(ctx: Ctx) -> int:
     for it in items[:: max(1, len(items) // 5)][:5]:
         ctx.sample({"cel": celx.render_ast(it[0]), "expected": it[2]})
     rng = random.Random(ctx.seed)
-    n = 600 if q else 20000
+    n = 600 if q else 60000
     # the round-trip laws the statement itself states, on random values of each source type (double text is symbolic in the spec)
     laws = []
     for _ in range(n):
